@@ -381,6 +381,8 @@ class ExprMixin:
             return VFunc("dictmethod", attr, base)
         if isinstance(base, VList):
             return VFunc("listmethod", attr, base)
+        if isinstance(base, VSeq):
+            return VFunc("seqmethod", attr, base)
         if isinstance(base, VStr):
             return VFunc("strmethod", attr, base)
         if isinstance(base, VOpaque):
